@@ -38,7 +38,7 @@ Always(op, kindword, comment) ==
    time |-> <<>>, written_time |-> FALSE, kindword |-> kindword, comment |-> comment]
 
 \* --- atoms per dimension (each element is a selector = sequence of ranges) ------
-YearSels == {<<Y(2020, 2020, 1, FALSE)>>, <<Y(2020, 2022, 1, FALSE)>>, <<Y(2020, 2030, 2, FALSE)>>, <<Y(2020, 9999, 1, TRUE)>>,
+YearSels == {<<Y(2030, 2030, 3, FALSE)>>, <<Y(2020, 2020, 1, FALSE)>>, <<Y(2020, 2022, 1, FALSE)>>, <<Y(2020, 2030, 2, FALSE)>>, <<Y(2020, 9999, 1, TRUE)>>,
              <<Y(1900, 1900, 1, FALSE)>>, <<Y(9999, 9999, 1, FALSE)>>, <<Y(2025, 2021, 1, FALSE)>>, <<Y(2020, 9999, 3, FALSE)>>,
              <<Y(2020, 2020, 1, FALSE), Y(2025, 2026, 1, FALSE)>>, <<Y(2019, 2021, 1, FALSE), Y(8000, 9000, 10, FALSE)>>}
 MonthSels == {<<MoR(1, 1, -1)>>, <<MoR(11, 2, -1)>>, <<MoR(3, 3, 2021)>>, <<MoR(1, 3, 2025)>>, <<MoR(12, 12, 9999)>>,
